@@ -1183,6 +1183,7 @@ func (r *rewriter) pruneImports() {
 		}
 		return true
 	})
+	var drop [][2]string
 	for _, imp := range r.file.Imports {
 		path, _ := strconv.Unquote(imp.Path.Value)
 		name := ""
@@ -1205,11 +1206,15 @@ func (r *rewriter) pruneImports() {
 			}
 		}
 		if !used[local] {
-			if name != "" {
-				astutil.DeleteNamedImport(fset, r.file, name, path)
-			} else {
-				astutil.DeleteImport(fset, r.file, path)
-			}
+			drop = append(drop, [2]string{name, path})
+		}
+	}
+	// (deleting while ranging over file.Imports would skip entries)
+	for _, d := range drop {
+		if d[0] != "" {
+			astutil.DeleteNamedImport(fset, r.file, d[0], d[1])
+		} else {
+			astutil.DeleteImport(fset, r.file, d[1])
 		}
 	}
 }
